@@ -22,7 +22,9 @@ type refStmt struct {
 }
 
 // refGlob: '*' matches any run of characters (including none), '?' exactly one.
-func refGlob(pat, s string) bool {
+func refGlob(patStr, sStr string) bool {
+	// '?' and '*' stand for characters, not for bytes of their encoding
+	pat, s := []rune(patStr), []rune(sStr)
 	// DP over pattern × subject
 	m := make([][]bool, len(pat)+1)
 	for i := range m {
